@@ -88,6 +88,12 @@ def render(forms):
 
 
 def run(fx, rep):
+    # "converting and then exporting to JSON equals serialising directly" has an export leg: the per-variant export table and the
+    # text of member names are C18 R1/R4 (json feature only)
+    if 'json' in fx.features('cel_interpreter'):
+        from .report import producer_rules
+        producer_rules(fx, rep, 'producer rule: the JSON export used by the commutation clause maps each variant as documented and names members by the plain key text (C18 R1/R4)',
+                       [('c18', 'C18', r'^(R1/arm/|R4/)')], 8)
     rep.rule('R1', 'Serializer / compound serializer method table equals the shape table')
     rep.rule('R2', 'KeySerializer table: accepted key kinds, everything else InvalidKey')
     rep.rule('R3', 'no unaudited panic edge in ser.rs')
